@@ -1153,3 +1153,40 @@ func FixedC12() []*Case {
 	out = append(out, mk("nB", "nB-renamed", "plugin-weird", map[string]string{"compare": "order"}, callsB, extraB))
 	return out
 }
+
+// UntypedC11: one-argument deriveTuple calls whose argument is a typed float64 / int / int32 / uint8 value or an
+// untyped constant (7, 1<<60+1, 1.5, 'x'): an untyped constant counts with its DEFAULT type (int, float64,
+// int32), it is not served by the function registered for float64 although it could be assigned to it.
+// All sequences of <= 2 calls over 2 names.
+func UntypedC11(r *rand.Rand) []*Case {
+	typs := []TypeSpec{{Go: "float64", Wire: "f64"}, {Go: "int", Wire: "int"}, {Go: "int32", Wire: "i32"}, {Go: "uint8", Wire: "u8"}}
+	type arg struct {
+		typ int
+		lit string
+	}
+	args := []arg{{0, ""}, {1, ""}, {2, ""}, {3, ""}, {1, "7"}, {1, "1<<60 + 1"}, {0, "1.5"}, {2, "'x'"}}
+	plugins := Plugins("derive", nil)
+	names := []string{"deriveTuple", "deriveTuple_"}
+	var out []*Case
+	var rec func(cur []CallSpec)
+	rec = func(cur []CallSpec) {
+		if len(cur) > 0 {
+			c := &Case{ID: fmt.Sprintf("ut%d", len(out)), Stream: "untyped", Types: typs, Plugins: plugins, Variants: AllVariants,
+				OtherFile: "z_other.go", Files: []FileSpec{{Name: "a.go", Calls: append([]CallSpec(nil), cur...)}}}
+			out = append(out, c)
+		}
+		if len(cur) == 2 {
+			return
+		}
+		for _, n := range names {
+			for _, a := range args {
+				cl := Call("tuple", n, a.typ)
+				cl.Arity = 1
+				cl.Const = a.lit
+				rec(append(append([]CallSpec(nil), cur...), cl))
+			}
+		}
+	}
+	rec(nil)
+	return out
+}
